@@ -60,21 +60,28 @@ CASCADE_PRESETS = {
 
 
 class FaultPlan:
-    """'the k-th cursor.execute/executemany while armed raises exc'.  Shared by
+    """'the k-th statement of class c while armed raises exc' (c = 'dml': INSERT/UPDATE/DELETE, 'sel': anything
+    else).  Positions are counted per class because the number of SELECTs a flush needs for expired objects depends
+    on the iteration order of identity-hashed sets inside the unit of work, the DML statements do not.  Shared by
     every connection of one Run."""
 
     def __init__(self):
         self.armed = False
-        self.count = 0
+        self.counts = {"dml": 0, "sel": 0}
         self.at = None
         self.exc = None
         self.fired = False
         self.log = None
+        self.after = None  # callback(dbapi_connection, sql, params) after every statement while armed (C31)
+
+    @property
+    def count(self):
+        return self.counts["dml"] + self.counts["sel"]
 
     def arm(self, at=None, exc=None):
         self.armed = True
-        self.count = 0
-        self.at = at
+        self.counts = {"dml": 0, "sel": 0}
+        self.at = at  # (class, k)
         self.exc = exc
         self.fired = False
 
@@ -86,10 +93,11 @@ class FaultPlan:
             self.log.append(sql)
         if not self.armed:
             return
-        self.count += 1
-        if self.at is not None and self.count == self.at and not self.fired:
+        c = "dml" if sql.lstrip()[:6].upper() in ("INSERT", "UPDATE", "DELETE") else "sel"
+        self.counts[c] += 1
+        if self.at is not None and not self.fired and self.at[0] == c and self.counts[c] == self.at[1]:
             self.fired = True
-            raise self.exc("injected fault at statement %d" % self.at)
+            raise self.exc("injected fault at %s statement %d" % self.at)
 
 
 class _FCursor(sqlite3.Cursor):
@@ -97,13 +105,20 @@ class _FCursor(sqlite3.Cursor):
         plan = self.connection.plan
         if plan is not None:
             plan.tick(sql)
-        return super().execute(sql, params)
+        r = super().execute(sql, params)
+        if plan is not None and plan.after is not None and plan.armed:
+            plan.after(self.connection, sql, params)
+        return r
 
     def executemany(self, sql, params):
         plan = self.connection.plan
         if plan is not None:
             plan.tick(sql)
-        return super().executemany(sql, params)
+        params = list(params)
+        r = super().executemany(sql, params)
+        if plan is not None and plan.after is not None and plan.armed:
+            plan.after(self.connection, sql, params)
+        return r
 
 
 class _FConn(sqlite3.Connection):
@@ -692,7 +707,17 @@ class Run:
         if k == "flush":
             return s.flush()
         if k == "commit":
-            return s.commit()
+            s.commit()
+            self.plan.disarm()  # a fault plan covers the commit itself, not the reads that follow
+            HOOKS.disarm()
+            if not s.autoflush:
+                # without autoflush a lazy load that happens while changes are pending shows stale rows (documented
+                # caveat of autoflush=False); these replicas therefore read their objects right after the commit, so
+                # every collection is in memory and kept current by the backref events
+                for n in sorted(o):
+                    if o[n] in s:
+                        self.touch(o[n])
+            return None
         if k == "rollback":
             return s.rollback()
         if k == "expire":
@@ -734,13 +759,17 @@ class Run:
         src, made = self.merge_source(op)
         before = {id(x) for x in self.session}
         res = self.session.merge(src)
-        # name every new instance that entered the session through this merge
+        # name every new instance that entered the session through this merge: "mg:<Class>:<pk>"
         for inst in list(self.session.new):
             if id(inst) not in self.names and id(inst) not in before:
-                self.nmerge += 1
                 st = sa_inspect(inst)
                 pk = ",".join(str(st.dict.get(k.key, "?")) for k in st.mapper.primary_key)
-                self.register("mg%d:%s:%s" % (self.nmerge, type(inst).__name__, pk), inst)
+                name = "mg:%s:%s" % (type(inst).__name__, pk)
+                i = 1
+                while name in self.objs:
+                    i += 1
+                    name = "mg:%s:%s#%d" % (type(inst).__name__, pk, i)
+                self.register(name, inst)
         return self.name_of(res)
 
     # -- observations
@@ -783,13 +812,15 @@ class Run:
         """load everything in a brand-new Session on the same database"""
         spec = self.w.spec
         out = {}
-        with Session(self.engine) as fs:
+        with warnings.catch_warnings(record=True) as wl, Session(self.engine) as fs:
+            warnings.simplefilter("always")
             for cname, cls in self.w.classes.items():
                 if spec.cls[cname].base is not None:
                     continue
                 for inst in fs.scalars(sa.select(cls)).all():
                     out[_ident(inst)] = _snap(inst, spec)
             fs.rollback()
+        self.warnings += [str(x.message) for x in wl]
         return out
 
     def canon(self):
@@ -927,7 +958,18 @@ def diff_graph(a, b, la="a", lb="b"):
     return "; ".join(out)
 
 
-def lockstep(w, hist, ms, op, autoflush=True, expire_on_commit=True, mode="memory", run_out=None):
+def model_along(w, hist, autoflush=True):
+    """the model state the explorer carries after `hist` (same adoption of open outcomes / catalogued defects as the
+    exploration itself): lock-step over every prefix"""
+    ms = model_for(w)
+    for i, op in enumerate(hist):
+        ms, key, problems = lockstep(w, tuple(hist[:i]), ms, op, autoflush=autoflush)
+        if ms is None:
+            return None
+    return ms
+
+
+def lockstep(w, hist, ms, op, autoflush=True, expire_on_commit=True, mode="memory", run_out=None, before_rows=False):
     """Replay `hist` on a fresh replica, apply `op` to implementation and model, compare.
 
     -> (post_model | None, key | None, problems)  problems: list of (kind, signature_tail, detail).
@@ -936,6 +978,12 @@ def lockstep(w, hist, ms, op, autoflush=True, expire_on_commit=True, mode="memor
     try:
         for h in hist:
             run.apply(h)
+        run.rows_before = run.rows_after = None
+        if before_rows:
+            try:
+                run.rows_before = run.rows()
+            except SA_ERRORS:
+                pass
         return _lockstep_op(run, ms, op, run_out)
     finally:
         if run_out is None:
@@ -988,7 +1036,11 @@ def _lockstep_op(run, ms, op, run_out=None):
             e = out[1]
             if not isinstance(e, SA_ERRORS):
                 raise e
-            if not exp["error"]:
+            if exp.get("known_any"):
+                problems.append(("known:" + exp["known_any"], KNOWN_QUIRKS[exp["known_any"]], "%s raised %r" % (k, e)))
+            elif not exp["error"] and exp.get("known_err"):
+                problems.append(("known:" + exp["known_err"], KNOWN_QUIRKS[exp["known_err"]], "%s raised %r" % (k, e)))
+            elif not exp["error"]:
                 problems.append(("flush-raised", "%s raised %s although the final state satisfies every constraint" % (k, type(e).__name__), repr(e)[:500]))
             return None, None, problems
         if exp["must_error"]:
@@ -1000,6 +1052,7 @@ def _lockstep_op(run, ms, op, run_out=None):
         else:
             with run.engine.connect() as c:
                 got = read_rows(c.connection.dbapi_connection, w)
+        run.rows_after = got
         want = post.rows_as_lists()
         if got != want or _life_problem(run, post):
             for tag, alt in exp["outcomes"][1:]:
@@ -1009,6 +1062,9 @@ def _lockstep_op(run, ms, op, run_out=None):
                     if tag:
                         problems.append(("known:" + tag, KNOWN_QUIRKS[tag], _fmt_op(op)))
                     break
+        if got != want and exp.get("known_any"):
+            problems.append(("known:" + exp["known_any"], KNOWN_QUIRKS[exp["known_any"]], diff_rows(got, want)))
+            return None, None, problems
         if got != want:
             if exp["open"]:
                 return None, None, problems
@@ -1021,7 +1077,11 @@ def _lockstep_op(run, ms, op, run_out=None):
             return None, None, problems
         # loaded column attributes of persistent objects agree with their rows
         p = _attr_problem(run, post)
+        if p and all(x[2] for x in p):
+            problems.append(("known:f8", KNOWN_QUIRKS["f8"], "; ".join(x[0] for x in p)))
+            return None, None, problems
         if p:
+            p = "; ".join(x[0] for x in p)
             problems.append(("attrs", "in-memory column attribute differs from its row after %s" % k, p))
             return None, None, problems
         key = (run.canon(), post.canon())
@@ -1050,12 +1110,19 @@ def _lockstep_op(run, ms, op, run_out=None):
             exp2 = ms.expect_flush(af=True)
             if exp2["error"]:
                 return None, None, problems
+            kq = exp2.get("known_any") or exp2.get("known_err")
+            if kq:
+                problems.append(("known:" + kq, KNOWN_QUIRKS[kq], "autoflush in %s raised %r" % (_fmt_op(op), e)))
+                return None, None, problems
         if not isinstance(e, SA_ERRORS) and not isinstance(e, (ValueError,)):
             raise e
         problems.append(("op-raised", "%s raised %s" % (_fmt_op(op), type(e).__name__), repr(e)[:500]))
         return None, None, problems
     if post is None:
         return None, None, problems  # the model leaves its domain here (operation on a deleted / detached object)
+    if k == "merge" and out[1] != post.last_merge:
+        problems.append(("merge-target", "merge returned %s, documented target is %s" % (out[1], post.last_merge), ""))
+        return None, None, problems
     p = _life_problem(run, post)
     if p:
         for q in KNOWN_QUIRKS:
@@ -1071,6 +1138,10 @@ def _lockstep_op(run, ms, op, run_out=None):
 
 
 KNOWN_QUIRKS = {
+    "f6": "delete-orphan: an orphan found only by the session-level check is deleted without its delete cascade (children keep referring to it)",
+    "f7": "joined inheritance: a pending object that takes over the primary key of a deleted object of another subclass (row switch) is written as an UPDATE of the old row",
+    "f8": "passive_updates=True: after a parent key change a loaded child whose parent collection is not loaded keeps the old foreign key value in memory",
+    "f9": "passive_updates=False: a child de-associated or re-parented through the many-to-one side while expired still gets the renamed former parent's new key",
     "f1": "delete-orphan: a child de-associated through the many-to-one side while expired is not deleted at flush (orphan row stays)",
     "f3": "delete-orphan: a child re-associated through the many-to-one side while expired is deleted with its former parent (cascade follows the stale database collection)",
     "f2": "delete-orphan: a pending child moved from one in-session parent to another parent is expunged from the session",
@@ -1083,7 +1154,7 @@ def _life_problem(run, m):
         if n not in m.objs or n in m.fuzzy:
             continue
         a, b = run.life(n), m.objs[n].life
-        if a != b:
+        if a != b and not (a == "D" and b == "X"):  # a deleted object that was expunged as well
             bad.append("%s: impl %s, model %s" % (n, a, b))
     return "; ".join(bad)
 
@@ -1105,8 +1176,104 @@ def _attr_problem(run, m):
             row.update(m.rows[t.name].get(o.dbpk, {}))
         for a, col in c.cols.items():
             if a in d and d[a] != row.get(col):
-                bad.append("%s.%s: memory %r, row %r" % (n, a, d[a], row.get(col)))
+                bad.append(("%s.%s: memory %r, row %r" % (n, a, d[a], row.get(col)), n, False))
         for l in m.links_as_holder(o.cls):
             if l.fk in d and d[l.fk] != row.get(l.fk):
-                bad.append("%s.%s: memory %r, row %r" % (n, l.fk, d[l.fk], row.get(l.fk)))
-    return "; ".join(bad)
+                # f8: the database cascaded a parent key change (ON UPDATE CASCADE) that the loaded child did not get
+                f8 = bool(l.passive_updates and spec.cls[l.target].pk_mutable and row.get(l.fk) is not None and d[l.fk] is not None)
+                bad.append(("%s.%s: memory %r, row %r" % (n, l.fk, d[l.fk], row.get(l.fk)), n, f8))
+    return bad
+
+
+# ------------------------------------------------------------------ event-hook faults (C32)
+
+
+class HookFault(Exception):
+    """raised from a flush event hook by the harness"""
+
+
+class HookPlan:
+    """'the j-th invocation of hook <name> while armed raises HookFault'; also counts invocations"""
+
+    def __init__(self):
+        self.reset()
+
+    def reset(self):
+        self.armed = False
+        self.counts = {}
+        self.at = None  # (name, j)
+        self.fired = False
+
+    def arm(self, at=None):
+        self.armed = True
+        self.counts = {}
+        self.at = at
+        self.fired = False
+
+    def disarm(self):
+        self.armed = False
+
+    def tick(self, name):
+        if not self.armed:
+            return
+        self.counts[name] = self.counts.get(name, 0) + 1
+        if self.at is not None and not self.fired and self.at[0] == name and self.at[1] == self.counts[name]:
+            self.fired = True
+            raise HookFault("injected fault in %s #%d" % self.at)
+
+
+HOOKS = HookPlan()
+MAPPER_HOOKS = ("before_insert", "before_update", "before_delete", "after_insert", "after_update", "after_delete")
+SESSION_HOOKS = ("before_flush", "after_flush", "after_flush_postexec")
+
+
+def install_mapper_hooks(w):
+    """permanent (per process) mapper-level listeners on the world's classes; inert unless HOOKS is armed"""
+    if getattr(w, "_hooks_installed", False):
+        return
+    w._hooks_installed = True
+    for cname, cls in w.classes.items():
+        if w.spec.cls[cname].base is not None:
+            continue
+        for hname in MAPPER_HOOKS:
+            def fn(mapper, connection, target, _h=hname):
+                HOOKS.tick(_h)
+            event.listen(cls, hname, fn, propagate=True)
+
+
+def install_session_hooks(session):
+    def bf(session, ctx, instances):
+        HOOKS.tick("before_flush")
+
+    def af(session, ctx):
+        HOOKS.tick("after_flush")
+
+    def afp(session, ctx):
+        HOOKS.tick("after_flush_postexec")
+
+    event.listen(session, "before_flush", bf)
+    event.listen(session, "after_flush", af)
+    event.listen(session, "after_flush_postexec", afp)
+
+
+def apply_redo(run, op):
+    """'repeating the same work': the operation again, idempotently with respect to what an object that was never
+    persisted still holds in memory (a transient object is not reset by a rollback)"""
+    k = op[0]
+    o = run.objs
+    if k == "append":
+        if o[op[3]] in getattr(o[op[1]], op[2]):
+            return ("ok", None)
+    elif k == "remove":
+        if o[op[3]] not in getattr(o[op[1]], op[2]):
+            return ("ok", None)
+    elif k == "add":
+        if o[op[1]] in run.session:
+            return ("ok", None)
+    elif k == "delete":
+        if o[op[1]] in run.session.deleted:
+            return ("ok", None)
+    elif k == "expunge":
+        if o[op[1]] not in run.session:
+            return ("ok", None)
+    return run.apply(op)
